@@ -148,7 +148,8 @@ func init() {
 		// missing), while Jaw/Teeth/Lip (n-max+1 values) and the annotations (n+1-max)
 		// carry one value more than there are date rows.
 		KFCol: func(cfg []int, n int, col string) string {
-			if col == "Jaw" || col == "Teeth" || col == "Lip" || col == "" {
+			if col == "Jaw" || col == "Teeth" || col == "Lip" || col == "" || col == "rows" {
+				// "rows": dates skip max instead of max-1, so one snapshot beyond the warm-up gives no row
 				return "KF-C14-Alligator-shift-by-max"
 			}
 			return ""
